@@ -38,8 +38,9 @@ inductive Err
   | noInterleavedIDs | invalidInterleavedIDs | interleavedIDsInUse | other
   deriving DecidableEq, Repr, Inhabited
 
-/-- How the CSeq header of a response relates to the pending request. -/
-inductive CSeqK | good | wrong | missing | dup
+/-- The CSeq header of a response: one value that is a number, one value that is not the decimal
+text of any request number (`garbage`), no header, or more than one header. -/
+inductive CSeqH | num (n : Nat) | garbage | missing | dup
   deriving DecidableEq, Repr, Inhabited
 
 inductive SessK | none | good (id : Nat) | bad
@@ -73,7 +74,7 @@ structure TrH where
   deriving DecidableEq, Repr, Inhabited
 
 structure Resp where
-  cseq : CSeqK := .good
+  cseq : CSeqH := .missing
   status : Nat := 200
   sess : SessK := .none
   www : AuthK := .none
@@ -264,8 +265,8 @@ def setupStart (c : Cfg) (s : St) (a : SetupArgs) (k : List Fr) (retK : St → V
     | some s1 =>
       let p := pickProto c s1
       if (p == .udp || p == .mcast) && c.secure then retK s1 (.err .other)
-      else if !a.ctlOk then retK s1 (.err .other)
       else if a.back && !c.backch then retK s1 (.err .other)
+      else if !a.ctlOk then retK s1 (.err .other)
       else startDo s1 .setup false (tpCode s1 p) [.setupK a p] k (fun s e => retK s (.err e)) id
   else retK s (.err .invalidState)
 
@@ -451,6 +452,7 @@ def startApi (c : Cfg) (s : St) (a : Api) : St :=
     else retK s (.err .invalidState)
   | .record =>
     if s.cst == .preRecord then
+      if s.tr == none then retK s (.err .other) else
       let s1 : St := { s with cst := .record, allow := s.tr == some .tcp, writer := true }
       startDo s1 .record false 0 [.recordK] k (fun s e => retK (playUndo s .preRecord) (.err e)) id
     else retK s (.err .invalidState)
@@ -463,8 +465,14 @@ def startApi (c : Cfg) (s : St) (a : Api) : St :=
 def waitFail (c : Cfg) (s : St) (e : Err) (k : List Fr) : St :=
   resume c k { s with mustClose := true } (.err e)
 
-/-- waitResponse's CSeq filter -/
-def cseqAccept (k : CSeqK) : Bool := k != .wrong
+/-- waitResponse's CSeq filter: accept when the header is absent or given several times, or when its
+single value is the text of the pending request's number -/
+def cseqAccept (h : CSeqH) (pending : Nat) : Bool :=
+  match h with
+  | .num n => n == pending
+  | .garbage => false
+  | .missing => true
+  | .dup => true
 
 /-- One event.  Closed: API calls return closeError.  Idle (empty stack): runInner's select.
 Waiting (`wait` on top): waitResponse's select. -/
@@ -485,11 +493,11 @@ def step (c : Cfg) (s : St) (e : Ev) : St :=
       | .readErr => runExit { s with reader := false } (some .other)
       | .timer => s
       | .close => runExit s (some .terminated)
-    | .wait m _ tp :: k =>
+    | .wait m n tp :: k =>
       match e with
       | .call _ => s
       | .resp r =>
-        if cseqAccept r.cseq then
+        if cseqAccept r.cseq n then
           doTail c { s with stack := k } m tp r k (resume c k)
         else s
       | .sreq true => emit s .replied
